@@ -134,6 +134,16 @@ finding("C07-sort-column-pruned-before-take", "C07", ["C01", "C03", "C04"],
  "`from t1 | select {id, a} | sort {-id} | select {c3 = id + 1} | filter c3 > 0 | take ..2 | group {c3} (aggregate {n = count this})` emits `table_0 AS (SELECT c3 FROM table_1 WHERE c3 > 0 ORDER BY id DESC LIMIT 2)` although table_1 no longer projects id (no such column).",
  {"source": "from t1 | select {id, a} | sort {-id} | select {c3 = id + 1} | filter c3 > 0 | take ..2 | group {c3} (aggregate {n = count this})", "arity": 2, "rows": [[I(4),I(1)],[I(3),I(1)]]})
 
+finding("C02-compare-right-operand-parens", "C02", ["C01"],
+ "a comparison operator whose right operand is itself a comparison (`a == (b == c)`, `a != (b < c)`)",
+ "`select {r = b1 == (i1 == i2)}` is emitted as `b1 = i1 = i2`, i.e. (b1 = i1) = i2: comparisons have no template, the same binding strength on the right is not parenthesised.",
+ None)
+
+finding("C02-divi-template-strength", "C02", ["C01"],
+ "`x % (a // b)` or `x / (a // b)`: an integer division as (the left spine of) the right operand of `%` or `/`",
+ "std.sql.prql declares `@{binding_strength=100} let div_i = l r -> s\"FLOOR(ABS(..)) * SIGN(..) * SIGN(..)\"` (sqlite: ROUND(..) * SIGN * SIGN): the body is a product, so as the right operand of `%` it needs parentheses it does not get: `(1 + 2) % (-2 // i1)` -> `(1 + 2) % FLOOR(ABS(-2 / i1)) * SIGN(-2) * SIGN(i1)` = ((1+2) % F) * S * S, wrong sign.",
+ {"source": "from t1 | select {c = 7 % (a // (-1))}", "arity": 1, "rows": [[I(0)],[I(0)],[I(1)]]})
+
 k = json.load(open(os.path.join(V, "known_findings.json")))
 keep = [f for f in k["findings"] if f["id"] not in {x["id"] for x in FINDINGS}]
 k["findings"] = keep + FINDINGS
